@@ -24,7 +24,12 @@ def program(name, lines, extra_files=None):
 
 def pipes(r):
     def src():
-        k = r.choice(['nums', 'strs', 'times', 'chars', 'nested', 'tuple', 'until'])
+        k = r.choice(['nums', 'strs', 'times', 'chars', 'nested', 'tuple', 'until', 'mapnum', 'mapnum'])
+        if k == 'mapnum':
+            # a map iterator hands out a fresh [key, value] list per step that nothing but the iterator refers to
+            # (number keys: the order of the walk is a function of the keys alone)
+            return "{" + ", ".join("%d: %s" % (key, r.choice(["'mv%d'" % key, "['in${%d}']" % key, "%d" % key]))
+                                   for key in r.sample(range(12), r.randint(0, 7))) + "}.iter()"
         if k == 'nums':
             return "[" + ", ".join(str(r.randint(0, 9)) for _ in range(r.randint(0, 6))) + "].iter()"
         if k == 'strs':
@@ -119,11 +124,14 @@ def churn(r):
         # a user defined str() that recurses deeply (the fiber's stack grows) and allocates, for natives that convert
         # several arguments one after the other
         "class Deep { init(n) { self.n = n; } str() { let pad = ['s${self.n}']; 'deep' + deep(self.n, pad).str() } }",
+        # a class hierarchy made at run time of which only the leaf is handed out: the ancestors stay reachable through the
+        # leaf's superclass link alone
+        "fn mkerr(tag) { class SErr : Error { where() { 'storage' } } class MErr : SErr {} class DErr : MErr { tag() { tag } } DErr }",
     ]
     body = []
     for i in range(r.randint(3, 10)):
         k = r.choice(['node', 'closure', 'map', 'tuple', 'error', 'deep', 'strings', 'box', 'cycle', 'method', 'sortcb',
-                      'slice', 'interp', 'nested_fn', 'enumerate', 'userstr', 'userstr'])
+                      'slice', 'interp', 'nested_fn', 'enumerate', 'userstr', 'userstr', 'hierarchy', 'hierarchy'])
         v = r.randint(0, 9)
         if k == 'node':
             body.append("keep.push(Node(%d).chain(%d).tag);" % (v, r.randint(0, 6)))
@@ -138,6 +146,11 @@ def churn(r):
                 body.append("print([Deep(%d), ['in${%d}'], Deep(%d)], (Deep(%d), 'tuple${%d}'));" % (depth, v, depth // 3, depth, v))
             else:
                 body.append("keep.push(Deep(%d).str() + 'tail${%d}');" % (depth, v))
+        elif k == 'hierarchy':
+            body.append("if true { let E = mkerr('t${%d}'); keep.push(deep(%d, ['over'])); let pad = []; for i in %d.times() { pad.push('pad${i}'); } "
+                        "let f = E('m${%d}'); keep.push([f.isA?(Error), f.where(), f.tag(), E.superCls().superCls().name(), pad.len()]); "
+                        "try { raise E('r${%d}'); } catch e: Error { keep.push(e.message + e.cls().superCls().name()); } }" % (
+                            v, r.randint(2, 9), r.choice([3, 30, 120]), v, v))
         elif k == 'closure':
             body.append("if true { let f = mk(%d); f('a'); keep.push(f('b').len()); }" % v)
         elif k == 'map':
